@@ -5,6 +5,7 @@ CONSTANTS
   MaxBlocks = 2
   Layouts = {"plain", "fee_after"}
   MaxUnwind = 1
+  Features = {}
   Defect = "none"
   MaxReload = 0
 CONSTRAINT Bounded
